@@ -13,3 +13,6 @@ import SpqProofs.Properties.C07
 import SpqProofs.Properties.C10
 import SpqProofs.Properties.C16
 import SpqProofs.Properties.Bridge
+import SpqProofs.Properties.C01
+import SpqProofs.Properties.C02
+import SpqProofs.Properties.C04
